@@ -178,7 +178,10 @@ def case_api_dir(case):
     f = np.array([0.0, 1.0, 3.5, -2.0, 0.7][:n])
     nsub = 0
     for ds in [list(c) for k in (1, 2, 3) for c in itertools.combinations(range(len(D)), k)]:
-        dirs = np.array([D[i] for i in ds]) * 2.5  # not normalised: the API normalises
+        # not normalised (the API normalises every direction on its own): lengths 2.5, 1 (already a
+        # unit vector), 0.4 mixed inside one call, rotated with the size of the direction set
+        scale = np.array([[2.5, 1.0, 0.4][(j + len(ds)) % 3] for j in range(len(ds))])
+        dirs = np.array([D[i] for i in ds]) * scale[:, None]
         for tol in TOLS:
             for bw in (None, 0.6, 1.1):
                 masks, margin = ov.direction_masks(dvec, dist, np.array([D[i] for i in ds]), tol, bw)
@@ -203,6 +206,15 @@ def case_api_dir(case):
                 continue
             bc, g, cnt = gs.vario_estimate(pos, f, [0.0, 1.2, 3.0], angles=ang, return_counts=True)
             r.true("vario_estimate(angles=a) == direction (cos a, sin a)", np.array_equal(cnt, exp_c[0]) and np.allclose(g, exp_v[0], rtol=1e-12, atol=1e-14), info={"got": g.tolist(), "exp": exp_v.tolist()}, angle=ang, dim=dim, coincident=coincident)
+    if dim == 3:
+        for az, inc in itertools.product((0.0, math.pi / 4, 2.0, -1.0), (0.3, math.pi / 2, 2.2)):
+            d = [math.sin(inc) * math.cos(az), math.sin(inc) * math.sin(az), math.cos(inc)]
+            exp_v, exp_c, margin = ov.directional(f[None, :], [0.0, 1.2, 3.0], dist, dvec, [d], math.pi / 8, None, "m")
+            if 0 < margin < 1e-9:
+                continue
+            bc, g, cnt = gs.vario_estimate(pos, f, [0.0, 1.2, 3.0], angles=[az, inc], return_counts=True)
+            nsub += 1
+            r.true("vario_estimate(angles=(azimuth, inclination)) == direction in ISO spherical coordinates", np.array_equal(cnt, exp_c[0]) and np.allclose(g, exp_v[0], rtol=1e-12, atol=1e-14), info={"got": g.tolist(), "exp": exp_v.tolist()}, angle=[az, inc], dim=dim, coincident=coincident)
     r.evals += nsub
     return r.done(outcome=[round(float(x), 6) for x in dist[:3]] + [n], sub={"estimates": nsub})
 
